@@ -5,6 +5,7 @@ L2 = [("lit", "a1", "a0"), ("lit", "!a1", "!a0")]
 LO = [("lit", "a1", "a0"), ("opaque",)]
 OO = [("opaque",), ("opaque",)]
 L3 = [("lit", "a1", "a0"), ("lit", "!a1", "a0"), ("lit", "a0", "!a1")]
+LV = [("lit", "a0", "a1"), ("lit", "a1", "!a0")]           # overlapping: worlds verify one and falsify the other
 
 
 def run(rep, tier, seed):
@@ -13,19 +14,27 @@ def run(rep, tier, seed):
     # (a) reference = fast = incremental compilation, and incremental histories
     for conds in ([L2, LO] if quick else [L2, LO, OO, L3]):
         drive.run_op(rep, crev.CompileHarness(2, conds))
-    scripts = [[("add", 1), ("add", 3), ("remove", 1), ("add", 2)], [("add", 2), ("add", 1), ("remove", 2)], [("add", 1), ("remove", 1), ("add", 1)]]
-    for sc in (scripts[:2] if quick else scripts):
+    scripts = [[("add", 1), ("add", 3), ("remove", 1), ("add", 2)], [("add", 2), ("add", 1), ("compile", 0), ("remove", 2)],
+               [("add", 1), ("add", 3), ("compile", 0), ("remove", 3), ("compile", 0), ("add", 2), ("remove", 1)], [("add", 1), ("remove", 1), ("add", 1)]]
+    for sc in (scripts[:3] if quick else scripts):
         drive.run_op(rep, crev.CompileHarness(2, L2 + [("opaque",)], script=sc))
     # (b) revision results
     cfgs = [dict(conds=L2, gamma_plus_zero=True), dict(conds=L2, gamma_plus_zero=False), dict(conds=LO, gamma_plus_zero=True),
             dict(conds=LO, gamma_plus_zero=False), dict(conds=L2, gamma_plus_zero=True, fixed_minus={1: 2}),
-            dict(conds=LO, gamma_plus_zero=True, use_model=True), dict(conds=L2, gamma_plus_zero=False, fixed_plus={2: 1})]
+            dict(conds=LO, gamma_plus_zero=True, use_model=True), dict(conds=L2, gamma_plus_zero=False, fixed_plus={2: 1}),
+            dict(conds=LV, gamma_plus_zero=True), dict(conds=LV, gamma_plus_zero=False), dict(conds=LV, gamma_plus_zero=True, fixed_minus={1: 2}),
+            dict(conds=LV, gamma_plus_zero=False, fixed_plus={1: 1}), dict(conds=LO, gamma_plus_zero=True, fixed_minus={2: 1})]
     if not quick:
         cfgs += [dict(conds=OO, gamma_plus_zero=True), dict(conds=L3, gamma_plus_zero=True), dict(conds=L3, gamma_plus_zero=False),
                  dict(conds=LO, gamma_plus_zero=True, fixed_minus={2: 0})]
+    from .. import report
+    known = any(k.get("id") == crev.ReviseHarness.KNOWN[0] for k in report.load_known().get("known", []))
+    cfgs.append(dict(conds=L3, gamma_plus_zero=False))
     for c in cfgs:
         c = dict(c)
-        drive.run_op(rep, crev.ReviseHarness(2, c.pop("conds"), **c))
+        h = crev.ReviseHarness(2, c.pop("conds"), **c)
+        h.known_active = known
+        drive.run_op(rep, h)
     rep.assumptions.append("prior rankings: every assignment of ranks 0..2 to the 4 worlds of a 2-atom signature (forked per value where the value enters the CSP); revision conditionals: literal ones (bit-mask fast path) and opaque ones with arbitrary tables (solver fallback), <=2 (thorough 3)")
     rep.assumptions.append("the CSP of a path is concrete and solved by the genuine z3; acceptance, admissibility, 'None only if nothing admissible' and Pareto-minimality of gamma- are decided for every input on the path against all integer parameter vectors")
     rep.assumptions.append("stated plainly: the compile part is close to exhaustive enumeration driven by the engine (the code enumerates worlds itself); the universally quantified part are the existence / minimality queries")
